@@ -214,6 +214,9 @@ theorem depth_lt_fuelOf (l : List Mk.M) (rest : List PyVal) : depthM (.list l) â
   have := depthL_le_sizeL l
   simp only [depthM, fuelOf, sizeL, ofML, size]; omega
 
+theorem getattr_markers (m : List Mk.M) : getattr (ofMarker m) "_markers" = .ok (ofML m) := by
+  simp [ofMarker]
+
 end MarkerFmt
 open MarkerFmt
 
@@ -222,9 +225,6 @@ theorem _format_marker_eq_model (l : List Mk.M) (first : Bool) :
     Gen.PySrc._format_marker (ofML l) (.bool first) = .ok (.str (Mk.fmtL l first)) := by
   unfold Gen.PySrc._format_marker
   exact format_fuel _ (.list l) first (depth_lt_fuelOf l _)
-
-theorem getattr_markers (m : List Mk.M) : getattr (ofMarker m) "_markers" = .ok (ofML m) := by
-  simp [ofMarker]
 
 /-- `str(marker)` -/
 theorem Marker.__str___eq_model (m : List Mk.M) : Gen.PySrc.Marker.__str__ (ofMarker m) = .ok (.str (Mk.str m)) := by
